@@ -1339,7 +1339,7 @@ impl GraphDatabase {
             .reader
             .send_async(Box::new(move |conn| {
                 let nodes =
-                    NodeDeletionEntry::with_previous_authors(nodes, conn).map_err(Error::from);
+                    NodeDeletionEntry::with_authors(nodes, conn).map_err(Error::from);
                 match nodes {
                     Ok(nodes) => {
                         let msg = AuthorisationMessage::DeleteNodes(nodes, reply);
